@@ -7,6 +7,8 @@ from . import model
 from .core import Violation
 from .treemodel import MNode, World, sat_int, ARENA_STRINGS, KEY_POOL, STR_POOL, NUM_POOL
 
+N_KEY_STRINGS = 11   # the first 11 arena strings are keys/values for items; the rest are read by utilities (stored replays keep their meaning)
+
 MAX_ROOTS = 10
 
 
@@ -194,7 +196,7 @@ class Interp:
     def op_create_stringref(self, a, b, c, d):
         if not self._room():
             return "skip"
-        p, s = self.w.arena[a % len(self.w.arena)]
+        p, s = self.w.arena[a % N_KEY_STRINGS]
         n = self.w.mk("S", self.lib.cJSON_CreateStringReference(p), sval=s, is_ref=True, ref_str_of="arena")
         self.w.new_root(n)
         self.feat.add("reference")
@@ -321,7 +323,7 @@ class Interp:
         if item is None:
             return "skip"
         if cs:
-            ai = c % len(w.arena)
+            ai = c % N_KEY_STRINGS
             kp, kb = w.arena[ai]
             if c % 23 == 22:
                 w.expect(fname + "(object, NULL, item)", f(obj.ptr, None, item.ptr), 0)
@@ -802,6 +804,11 @@ class Interp:
         if c % 5 == 0:
             # malformed: must leave nothing behind
             bad = text[:max(1, len(text) // 2)] + b"\\x"
+            if c % 15 == 0:
+                # a malformed token that is longer than any fixed scratch buffer: long runs of number characters, long literals, long escapes
+                frag = [b"-" * 70, b"-" + b"e+" * 40, b"1" * 70 + b"e+-", b"-." + b"E" * 90, b"tru" + b"e" * 80, b"\"" + b"\\u00e9" * 40 + b"\\q\"",
+                        b"\"" + b"\\uD83D\\uDE00" * 20, b"0." + b"0" * 80 + b".5"][d % 8]
+                bad = text[:max(1, len(text) // 2)] + frag if d & 8 else b"[" + frag + b"]"
             mark = lib.ledger_serial()
             po = lib.parse(c % 4, bad + b"\x00", d & 1, 0, 0)
             if po.tree:
@@ -1057,6 +1064,19 @@ class Interp:
                 key0 = ctypes.string_at(lib.shim_key(kids[0]))
                 lib.cJSON_AddItemToObject(op, b"from", lib.cJSON_CreateString(b"/" + key0.replace(b"~", b"~0").replace(b"/", b"~1")))
                 lib.cJSON_AddItemToObject(op, b"path", lib.cJSON_CreateString(b"/no such parent/child"))
+                lib.cJSON_AddItemToArray(patch, op)
+            # operations whose "op" / "path" / "from" strings are BORROWED (string references into read-only memory):
+            # applying a patch may read them, never write or release them
+            ar = dict((sv, pv) for pv, sv in w.arena)
+            for opname, path, frm in ((b"add", b"/borrowed~1path~0", None), (b"replace", b"/a~1b", None), (b"copy", b"/k", b"/borrowed~1path~0"),
+                                      (b"move", b"/m~0n", b"/k"), (b"test", b"/0", None), (b"remove", b"/a~1b/0", None))[(d >> 1) % 6:][:3]:
+                op = lib.cJSON_CreateObject()
+                lib.cJSON_AddItemToObject(op, b"op", lib.cJSON_CreateStringReference(ar[opname]))
+                lib.cJSON_AddItemToObject(op, b"path", lib.cJSON_CreateStringReference(ar[path]))
+                if frm is not None:
+                    lib.cJSON_AddItemToObject(op, b"from", lib.cJSON_CreateStringReference(ar[frm]))
+                if opname in (b"add", b"replace", b"test"):
+                    lib.cJSON_AddItemToObject(op, b"value", lib.cJSON_CreateNumber(5.0))
                 lib.cJSON_AddItemToArray(patch, op)
             lib.cJSONUtils_AddPatchToArray(patch, b"remove", b"/no such member", None)
             dup = lib.cJSON_Duplicate(r1.ptr, 1)
